@@ -64,6 +64,7 @@ REQUIRED = ["histories", "operations", "open_log_checks", "index_ops", "negative
             "transform_outputs_without_source", "map_inside_map_checked",
             "protocol_only_containers", "populations_of_more_than_1024_files",
             "callers_name_list_edited_after_construction",
+            "populations_opened_by_relative_root_after_chdir",
             "audit_file_opens"]
 FLOOR = {"quick": 250, "thorough": 20000}
 SHARDS = {"quick": 8, "thorough": 16}
@@ -882,7 +883,54 @@ def check_protocol(ctx, case, tmp):
     audit.stop()
 
 
-KINDS = {"history": check_history, "eswc": check_eswc, "protocol": check_protocol, "chain": check_chain, "populations": check_populations,
+def check_cwd(ctx, case, tmp):
+    """Two data sets with the same relative layout under two parent directories, each opened by its
+    relative root after changing into its parent (the usual per-animal loop): every population
+    hands out the trees of the directory it was opened in."""
+    from swcgeom.core import Population
+
+    rng = np.random.default_rng(case["seed"])
+    old = os.getcwd()
+    k = int(rng.integers(2, 6))
+    sets = []
+    for a, name in enumerate(("mouse", "rat")):
+        files = {}
+        root = os.path.join(tmp, name, "swc")
+        os.makedirs(root)
+        for i in range(k):
+            rel = f"cell{i:02d}.swc"
+            n, marker = 2 + i + 10 * a, float(100 * a + i)
+            with open(os.path.join(root, rel), "w") as f:
+                for j in range(n):
+                    f.write(f"{j + 1} {1 if j == 0 else 3} {marker} {j} 0 1 {j if j else -1}\n")
+            files[rel] = (n, marker)
+        sets.append((root, files))
+    pops = []
+    try:
+        with warnings.catch_warnings():
+            warnings.simplefilter("ignore")
+            for root, files in sets:
+                os.chdir(os.path.dirname(root))
+                pop = Population.from_swc("swc")
+                pops.append(pop)
+                got = list(pop)             # read while still in that directory
+                listing = [os.path.basename(p) for p in Population.find_swcs("swc")]
+                ctx.count("populations_opened_by_relative_root_after_chdir")
+                for t, rel in zip(got, listing):
+                    n, marker = files[rel]
+                    if t.number_of_nodes() != n or float(t.x()[0]) != marker:
+                        return ctx.violation("wrong-tree",
+                                             f"Population.from_swc('swc') opened in "
+                                             f"{os.path.basename(os.path.dirname(root))}/ returned, "
+                                             f"for {rel}, a tree of {t.number_of_nodes()} nodes "
+                                             f"(marker {float(t.x()[0])}); that directory's file has "
+                                             f"{n} nodes (marker {marker})", case)
+    finally:
+        os.chdir(old)
+
+
+KINDS = {"history": check_history, "eswc": check_eswc, "protocol": check_protocol,
+         "cwd": check_cwd, "chain": check_chain, "populations": check_populations,
          "map": check_map, "transform": check_transform}
 
 
@@ -914,6 +962,8 @@ def run(ctx):
                     case = {"kind": "eswc", "seed": seed}
                 if k % 40 == 22:
                     case = {"kind": "protocol", "seed": seed}
+                if k % 40 == 4:
+                    case = {"kind": "cwd", "seed": seed}
             elif u < 8:
                 case = {"kind": "chain", "seed": seed,
                         "form": str(rng.choice(["list", "generator", "nested"]))}
